@@ -61,6 +61,12 @@ func c15Run(r *vrt.Rng, n int, b []bool, delta ot.Label, dataHook func(k int, ch
 	}
 	o.recvSeed = r.U64()
 	o.recv = make([]ot.Label, n)
+	if o.recvSeed&1 == 1 {
+		// a recycled destination that still holds old labels
+		for i := range o.recv {
+			o.recv[i] = ot.Label{D0: o.recvSeed + uint64(i), D1: ^o.recvSeed}
+		}
+	}
 	d := &duplex{A: tio, B: io2, doneA: io1.Close, doneB: io2.Close, finish: func() {}}
 	ra, rb := runPair(d, func() error {
 		s, err := ot.NewIKNPSender(b1, tio, r.Fork(), &delta)
@@ -503,6 +509,11 @@ func c15COT(cs *vrt.Case, r *vrt.Rng, n int, desc map[string]any) {
 		wires := randWires(r, n)
 		flags := choiceVec(r, n, 4)
 		got := make([]ot.Label, n)
+		if t%2 == 1 {
+			for i := range got {
+				got[i] = ot.Label{D0: uint64(t)<<32 + uint64(i), D1: ^uint64(i)}
+			}
+		}
 		b1, b2 := otx.NewIdealPair()
 		io1, io2 := otx.NewBufIOPair()
 		rot := r.Bool()
